@@ -39,6 +39,9 @@ func runC01(c *Ctx) {
 	c01ScannerProgress(c)
 	c01LoopProgress(c, entry)
 	c01ParserProgress(c, ro)
+	// every name in the tree is the text of its token: identifier and keyword tokens carry text[tokenPos:pos]
+	// (a keyword is a legal member name: `this.null`)
+	c14Keywords(c, "C01.word-tokens-carry-their-text")
 }
 
 func c01Recover(c *Ctx, entry *ssa.Function, ro *ParserRoles) {
